@@ -122,7 +122,7 @@ class Renderer:
             name = "m%d" % cid
             if name not in self._defined:
                 self._defined.add(name)
-                self.pre.append("def _%s(self%s):\n    return %s\nFac.%s = _%s\n" % (
+                self.pre.append("def _%s(_fac%s):\n    return %s\nFac.%s = _%s\n" % (
                     name, "".join(", " + a for a in args), call, name, name))
             return "FAC.%s" % name
         raise ValueError(form)
